@@ -66,3 +66,6 @@ Contract(
     frame=[],
     props=["C16"],
 )
+
+
+bridged_form.native = True      # replayed through the stub table of the witness
